@@ -139,6 +139,8 @@ def rhs_bvf_prelude(ctx):
         if "SGN" in ctx:
             p += [("value_word.rs", {"I": "{J}", "X": "_{J}"})]
         p += [("bvf.rs", {"I": "{J}", "X": "_{J}"})]
+        if "SGN" in ctx:
+            p += [("bvf_val.rs", {"I": "{J}", "X": "_{J}"})]
     p += [("chunk.rs", RHS_J)]
     same = INT_BITS[ctx["I"]] == INT_BITS[ctx["J"]]
     p += ["cast_same.rs" if same else "cast_same_dummy.rs"]
@@ -164,7 +166,7 @@ def rhs_value_prelude(ctx):
     return [("value_word.rs", {"I": "{J}", "X": "_{J}"})] if ctx["J"] != ctx["I"] else []
 
 GROUPS["bvf_arith"] = dict(name="bvf_arith",
-    prelude=lambda ctx: WORD_PRELUDE + ["conv_std.rs"] + VALUE_PRELUDE + ["bvf.rs"] + rhs_bvf_prelude(ctx) + ["bvf_arith.rs"],
+    prelude=lambda ctx: WORD_PRELUDE + ["conv_std.rs"] + VALUE_PRELUDE + ["bvf.rs", "bvf_val.rs"] + rhs_bvf_prelude(ctx) + ["bvf_arith.rs"],
     items=lambda ctx: BVF_BASE + rhs_bvf_items(ctx) + stub(BVF_CORE) + verify(["bvf.addsub_bvf"]))
 
 # -------------------------------------------------------------------------------------------------
@@ -220,6 +222,21 @@ PROPS["C18"] = {
     "thorough": [("bvd_core", U64), ("bvd_edit", U64), ("bvd_defaults", U64)],
 }
 
+# property -> prefixes of the executable-contract harnesses (kani/src/harness.rs) used for counterexamples / bounded stand-ins
+PROP_HARNESS = {
+    "C01": ["add__", "sub__", "mul__"],
+    "C03": ["or__", "xor__", "add__", "sub__", "edit__", "not__", "shl__", "shr__"],
+    "C04": ["and__", "or__", "xor__", "not__"],
+    "C05": ["shl__", "shr__", "shlin__", "shrin__"],
+    "C06": ["rot__"],
+    "C07": ["edit__"],
+    "C08": ["slice__"],
+    "C09": ["cmp__"],
+    "C16": ["cnt__"],
+    "C18": ["edit__bvd", "edit__bv"],
+    "C19": ["edit__f"],
+}
+
 # -------------------------------------------------------------------------------------------------
 # manifest texts
 NOT_CLAIMED = {}
@@ -263,3 +280,10 @@ MANIFEST_TEXT["C18"] = dict(
           "state the resulting word count exactly (capacity >= len + k after reserve; shrink_to_fit leaves exactly the words of a fresh vector), preserve wf (len <= capacity, "
           "spare words zero), and contain no reachable explicit panic (no capacity failure) under A-size."),
     note="Covered so far: Bvd. Not yet under contract: Bv (inline/heap switching), append/prepend growth paths. " + TRUST_NOTE)
+
+def bitops_jobs(pairs, ops=("and", "or", "xor")):
+    return [("bvf_bitops", pair(i, j, **BITOPS[o])) for (i, j) in pairs for o in ops]
+PROPS["C04"] = {
+    "quick": bitops_jobs([("u64", "u64"), ("u64", "u8"), ("u8", "u64")]) + jobs("bvf_misc", WQ) + [("bvd_misc", U64)],
+    "thorough": bitops_jobs([(i, j) for i in W4 for j in W4]) + jobs("bvf_misc", W4) + [("bvd_misc", U64)],
+}
